@@ -591,6 +591,200 @@ async def c20_scanner_bounded(w):
             "cases": len(cases), "failures": failures[:5], "reproduced": bool(failures)}
 
 
+class Tracer:
+    """Native tracer value: every special method logs an event and answers from a script."""
+    LOG = None
+    SCRIPT = None  # dict: 'truth' -> list of bools per tracer id; 'fail_at' -> event index at which to raise
+
+    def __init__(self, ident):
+        object.__setattr__(self, "_id", ident)
+
+    def _ev(self, what, *others):
+        log = Tracer.LOG
+        log.append((what, self._id) + tuple(_tid(o) for o in others))
+        if Tracer.SCRIPT.get("fail_at") == len(log) - 1:
+            raise TracerError(f"scripted failure at event {len(log) - 1}")
+
+    def _new(self, tag):
+        return Tracer(f"{tag}({self._id})")
+
+
+class TracerError(Exception):
+    pass
+
+
+def _tid(o):
+    """Identity of an operand for the log, without calling repr()/str() of tracers."""
+    if isinstance(o, Tracer):
+        return object.__getattribute__(o, "_id")
+    if isinstance(o, (list, tuple)):
+        return type(o).__name__ + "[" + ",".join(str(_tid(x)) for x in o) + "]"
+    if isinstance(o, dict):
+        return "dict{" + ",".join(f"{_tid(k)}:{_tid(v)}" for k, v in o.items()) + "}"
+    if isinstance(o, (int, float, str, bool, type(None), slice)):
+        return repr(o)
+    return type(o).__name__
+
+
+def _mk_tracer_methods():
+    def binop(name):
+        def f(self, other):
+            self._ev(name, other)
+            return Tracer(f"{name}({self._id},{_tid(other)})")
+        return f
+    for n in ["add", "sub", "mul", "truediv", "mod", "pow", "lshift", "rshift", "or", "xor", "and", "floordiv", "matmul",
+              "iadd", "isub", "imul", "eq", "ne", "lt", "le", "gt", "ge", "getitem"]:
+        setattr(Tracer, f"__{n}__", binop(n))
+    for n in ["neg", "pos", "invert", "iter_dummy"]:
+        def u(self, n=n):
+            self._ev(n)
+            return self._new(n)
+        setattr(Tracer, f"__{n}__", u)
+
+    def __bool__(self):
+        self._ev("bool")
+        t = Tracer.SCRIPT.get("truth", {})
+        return bool(t.get(str(self._id), True))
+
+    def __contains__(self, item):
+        self._ev("contains", item)
+        return bool(Tracer.SCRIPT.get("truth", {}).get("contains", True))
+
+    def __hash__(self):
+        self._ev("hash")
+        return hash(str(self._id))
+
+    def __str__(self):
+        self._ev("str")
+        return f"str({self._id})"
+
+    def __repr__(self):
+        self._ev("repr")
+        return f"repr({self._id})"
+
+    def __format__(self, spec):
+        self._ev("format", spec)
+        return f"fmt({self._id},{spec})"
+
+    def __call__(self, *a, **k):
+        self._ev("call", *a, *[f"{kk}={_tid(v)}" for kk, v in k.items()])
+        return Tracer(f"call({self._id})")
+
+    def __getattr__(self, name):
+        if name.startswith("__") and name not in ("__name__",):
+            raise AttributeError(name)
+        self._ev("getattr:" + name)
+        return Tracer(f"{self._id}.{name}")
+
+    def __setattr__(self, name, value):
+        self._ev("setattr:" + name, value)
+
+    def __setitem__(self, k, v):
+        self._ev("setitem", k, v)
+
+    def __delitem__(self, k):
+        self._ev("delitem", k)
+
+    def __iter__(self):
+        self._ev("iter")
+        n = int(Tracer.SCRIPT.get("iter_len", 2))
+        return iter([Tracer(f"{self._id}[{i}]") for i in range(n)])
+
+    def keys(self):
+        self._ev("keys")
+        return ["kk"]
+
+    for f in (__bool__, __contains__, __hash__, __str__, __repr__, __format__, __call__, __getattr__, __setattr__,
+              __setitem__, __delitem__, __iter__, keys):
+        setattr(Tracer, f.__name__, f)
+    Tracer.__getitem__ = binop("getitem")
+
+
+_mk_tracer_methods()
+
+
+def _snapshot_vars(d):
+    out = {}
+    for k, v in d.items():
+        if k in ("t", "__builtins__") or k.startswith("__"):
+            continue
+        out[k] = (type(v).__name__, getattr(v, "_id", None) if isinstance(v, Tracer) else repr(v))
+    return out
+
+
+async def _run_both(source, mode, script, presets):
+    """Run source under CPython and under the real AstEval with the same tracer script; returns the two records."""
+    import copy
+    from custom_components.pyscript.eval import AstEval
+    from custom_components.pyscript.function import Function
+    from custom_components.pyscript.global_ctx import GlobalContext, GlobalContextMgr
+    recs = []
+    for which in ("cpython", "pyscript"):
+        Tracer.LOG = []
+        Tracer.SCRIPT = script
+        t = lambda i: (Tracer.LOG.append(("Ev", i)), _maybe_fail(), Tracer(i))[2]
+        g = {"t": t}
+        g.update({k: Tracer(f"var:{k}") for k in presets})
+        res, err = None, None
+        try:
+            if which == "cpython":
+                if mode == "eval":
+                    res = eval(compile(source, "<tpl>", "eval", dont_inherit=True), g)
+                else:
+                    exec(compile(source, "<tpl>", "exec", dont_inherit=True), g)
+            else:
+                gctx = GlobalContext("tpl", global_sym_table=g, manager=GlobalContextMgr)
+                a = AstEval("tpl", global_ctx=gctx)
+                Function.install_ast_funcs(a)
+                a.parse(source, mode=mode)
+                res = await a.eval()
+                g = gctx.global_sym_table
+        except BaseException as e:  # noqa
+            err = type(e).__name__
+        recs.append({"log": [list(map(str, e)) for e in Tracer.LOG], "result": (type(res).__name__, getattr(res, "_id", None) if isinstance(res, Tracer) else repr(res)) if mode == "eval" and err is None else None,
+                     "exception": err, "vars": _snapshot_vars(g)})
+    return recs
+
+
+def _maybe_fail():
+    if Tracer.SCRIPT.get("fail_at") == len(Tracer.LOG) - 1:
+        raise TracerError(f"scripted failure at event {len(Tracer.LOG) - 1}")
+
+
+async def c01_template(w):
+    """Differential replay of one template: the real AstEval against CPython, with scripted tracer objects
+    (all truthiness assignments of the operands x a failure injected at each event position)."""
+    import itertools, re
+    await boot_full()
+    source, mode = w["source"], w["mode"]
+    kids = sorted(set(int(x) for x in re.findall(r"t\((\d+)\)", source)))
+    presets = [n for n in ("x", "y") if re.search(rf"\b{n}\b", source)] if w.get("preset_vars", True) else []
+    diffs = []
+    tried = 0
+    for truth in itertools.product([True, False], repeat=min(len(kids), 3)):
+        tmap = {str(k): v for k, v in zip(kids, truth)}
+        for cont in (True, False):
+            tmap2 = dict(tmap, contains=cont)
+            for fail_at in [None] + list(range(0, 10)):
+                for iter_len in (2, 0, 3):
+                    script = {"truth": tmap2, "fail_at": fail_at, "iter_len": iter_len}
+                    tried += 1
+                    c, p = await _run_both(source, mode, script, presets)
+                    if c != p:
+                        diffs.append({"script": script, "cpython": c, "pyscript": p})
+                        if len(diffs) >= 2:
+                            break
+                if len(diffs) >= 2:
+                    break
+            if len(diffs) >= 2:
+                break
+        if len(diffs) >= 2:
+            break
+    await shutdown()
+    return {"reproduced": bool(diffs), "observed": diffs[:1], "tried": tried, "source": source,
+            "expected": "same result, same ordered tracer log, same exception type, same final variables as CPython"}
+
+
 SCENARIOS = {k: v for k, v in list(globals().items()) if asyncio.iscoroutinefunction(v) and k[0] == "c"}
 
 if __name__ == "__main__":
